@@ -107,6 +107,11 @@ Definition dispatch (f : bytes) (a : list bytes) : list bytes :=
   else if isf f "srclines" then
     (* args: the lines L1..Ln.  reply: every line in the fragment?, every line passes the guard?, document by model, document by spec *)
     [b2 (forallb SrcTextParse.in_frag a); b2 (forallb SrcTextParse.no_byte_space_lead a); SrcTextParse.doc_code_lines a; SrcText.doc_spec_lines a]
+  else if isf f "srcctx" then
+    (* args: pre, post, then the lines.  reply as srclines, the documents in the static context pre ... post *)
+    let ls := skipn 2 a in
+    [b2 (forallb SrcTextParse.in_frag ls); b2 (forallb SrcTextParse.no_byte_space_lead ls);
+     SrcTextParse.ctx_code_lines (arg 0 a) (arg 1 a) ls; SrcText.ctx_spec_lines (arg 0 a) (arg 1 a) ls]
   else [bs "?"].
 
 Extraction "model.ml" dispatch.
